@@ -3,6 +3,7 @@ import conc_common as cc
 import nodes_impl as ni
 
 PID = "C04"
+TABLES = ["check_initsnap"]   # harness/tables.py: QueueSnapshotStore.get_initial_snapshot run on every schedule of <= 9 moves against InitSnap.v (D20)
 IMPORTS = "NodeModel NodeObs"
 FUNCS = [
     "torchdata/nodes/map.py:_sort_worker", "torchdata/nodes/map.py:_ParallelMapperIter", "torchdata/nodes/map.py:ParallelMapper",
